@@ -55,9 +55,41 @@ def predicate(tr, rep):
         prev = st
 
 
+def parallel_slots(ctx, rep):
+    """n_jobs > 1 with a population that does not divide evenly: in every recorded generation the fitness stored for a
+    slot is the value the fitness function returns for the individual stored there (the trajectory itself is C16's)"""
+    import thefittest.optimizers as O
+    import live as L
+    for kind in ("DifferentialEvolution", "SHADE", "SHAGA", "GeneticAlgorithm"):
+        for nj in ((2,) if ctx.quick else (2, 3)):
+            pop, seed = ctx.rng.choice([9, 11, 13]), ctx.rng.randrange(1 << 30)
+            mini = ctx.rng.random() < 0.5
+            obj = L.Objective("weighted")
+            kw = dict(iters=3, pop_size=pop, n_jobs=nj, keep_history=True, random_state=seed, minimization=mini)
+            if kind in ("SHAGA", "GeneticAlgorithm"):
+                opt = getattr(O, kind)(obj, str_len=7, **kw)
+            else:
+                opt = getattr(O, kind)(obj, left_border=-2.0, right_border=2.0, num_variables=3, **kw)
+            opt.fit()
+            rep.traces += 1
+            rep.count("parallel-slots", (kind, pop, nj, seed))
+            st = opt.get_stats()
+            sign = -1.0 if mini else 1.0
+            for g, (ph, fi) in enumerate(zip(st["population_ph"], st["fitness"])):
+                val = sign * obj.value(np.asarray(ph))
+                if not np.array_equal(val, np.asarray(fi)):
+                    rep.problem("consistent", f"{kind} with n_jobs={nj}, pop_size={pop}: a slot's stored fitness is not the value the fitness function "
+                                "returns for the individual stored there", dict(kind=kind, n_jobs=nj, pop=pop, seed=seed, minimization=mini, generation=g),
+                                "slot-inconsistent:parallel", True, np.asarray(fi).tolist(), val.tolist(), "C02_slot_consistent")
+                    break
+
+
 def run(ctx, rep):
     _loop.run_all(ctx, rep, "C02", predicate, 30, 300, force=dict(iters=5))
+    parallel_slots(ctx, rep)
 
 
 def replay(ctx, rp):
+    if rp["first"]["signature"] == "slot-inconsistent:parallel":
+        return None            # generic replay: re-executes the check with the recorded tier and seed
     return _loop.replay_trace(ctx, rp, predicate)
